@@ -187,11 +187,11 @@ var families = []family{
 			fmt.Fprintf(&b, "\tv%d := t.I(%d)\n", i, i)
 			sum += i
 		}
-		b.WriteString("\tt.P(0")
+		b.WriteString("\ts := 0\n")
 		for i := 1; i <= n; i++ {
-			fmt.Fprintf(&b, "+v%d", i)
+			fmt.Fprintf(&b, "\t{ s += v%d }\n", i)
 		}
-		b.WriteString(")\n}\n")
+		b.WriteString("\tt.P(s)\n}\n")
 		return b.String(), fmt.Sprint(sum)
 	}},
 	{"string-registers", 127, func(n int) (string, string) {
@@ -202,11 +202,11 @@ var families = []family{
 			fmt.Fprintf(&b, "\tv%d := t.S(%d)\n", i, i)
 			want += len(fmt.Sprint(i))
 		}
-		b.WriteString("\tt.P(len(\"\"")
+		b.WriteString("\ts := 0\n")
 		for i := 1; i <= n; i++ {
-			fmt.Fprintf(&b, "+v%d", i)
+			fmt.Fprintf(&b, "\t{ s += len(v%d) }\n", i)
 		}
-		b.WriteString("))\n}\n")
+		b.WriteString("\tt.P(s)\n}\n")
 		return b.String(), fmt.Sprint(want)
 	}},
 	{"string-constants", 256, func(n int) (string, string) {
